@@ -23,6 +23,10 @@ func main() {
 		os.Exit(2)
 	}
 	id := os.Args[1]
+	if id == "debug-c09" {
+		debugC09(os.Args[2:])
+		return
+	}
 	if id == "debug-specs" {
 		debugSpecs(os.Args[2:])
 		return
